@@ -83,9 +83,9 @@ class Processor {
 public:
 
   Processor(std::istream &in, std::ostream &out, size_t maxCycles=0) :
-    pc(0), areg(0), breg(0), oreg(0),
+    pc(0), areg(0), breg(0), oreg(0), memory(),
     io(in, out), truncateInputs(true), out(out),
-    running(true), tracing(false), lastPC(0), cycles(0),
+    running(true), tracing(false), exitCode(0), lastPC(0), cycles(0),
     maxCycles(maxCycles) {}
 
   void setTracing(bool value) { tracing = value; }
